@@ -6,8 +6,11 @@ bool bidib_state_add_train(t_bidib_train t) { __CPROVER_assert(t.id != NULL, "C1
 void bidib_state_add_train_state(t_bidib_train_state_intern s) { __CPROVER_assert(s.id != NULL, "C14.train_state_registered_with_an_id"); g_add_state++; }
 void bidib_state_add_initial_train_value(t_bidib_state_train_initial_value v) { __CPROVER_assert(v.train != NULL && v.id != NULL, "C14.train_initial_value_registered_with_train_and_function_id"); g_init_train++; }
 
+/* bidib_string_to_byte (proved in C14.to_byte) replaced by its contract: fails, or delivers an arbitrary byte - the k-th call's outcome is recorded */
+_Bool g_byte_err[12]; uint8_t g_byte_val[12]; unsigned g_byte_calls;
+bool bidib_string_to_byte(char *string, uint8_t *byte) { unsigned k = g_byte_calls++ % 12; if (!g_byte_err[k]) *byte = g_byte_val[k]; return g_byte_err[k]; }
 void vp_harness(void) {
-	vp_live = 0; vp_parsed = 0; vp_scalars = 0; vp_nested_calls = 0; g_add_train = g_add_state = g_init_train = 0; VP_IN(_Bool, g_dup);
+	vp_live = 0; vp_parsed = 0; vp_scalars = 0; vp_nested_calls = 0; vp_parse_failed = 0; g_byte_calls = 0; g_add_train = g_add_state = g_init_train = 0; VP_IN(_Bool, g_dup);
 #if defined(VP_H_CALIBRATION)
 	t_bidib_train train; train.id = mkstr("t"); train.calibration = NULL;
 	bool err = bidib_config_parse_single_train_calibration(&g_parser, &train);
@@ -31,6 +34,16 @@ void vp_harness(void) {
 		__CPROVER_assert(m->id != NULL && m->bit <= 31, "C14.train_function.bit_at_most_31");
 		for (guint k = 0; k < 2; k++) if (k < n) __CPROVER_assert(g_array_index(train.peripherals, t_bidib_train_peripheral_mapping, k).bit != m->bit, "C14.train_function.duplicate_bit_rejected");
 	} else __CPROVER_assert(ts.peripherals->len == n, "C13.train_function.rejected_function_leaves_no_state");
+	/* C14: the legal range of a function bit is 0..31 inclusive - a record "id: <new>, bit: <0..31, unused>" is not rejected at the bit */
+	if (VP_EV_IS(0, "id") && vp_parsed >= 4 && vp_ev_type[1] == YAML_SCALAR_EVENT && VP_EV_IS(2, "bit") && vp_ev_type[3] == YAML_SCALAR_EVENT && !g_byte_err[0] && g_byte_val[0] <= 31) {
+		_Bool dup = 0;
+		for (guint k = 0; k < 2; k++) if (k < n) { t_bidib_train_peripheral_mapping *e = &g_array_index(train.peripherals, t_bidib_train_peripheral_mapping, k);
+			if (e->bit == g_byte_val[0] || vp_strcmp3(e->id->str, vp_pool[vp_ev_val[1]]) == 0) dup = 1; }
+		VP_COVER(!dup && g_byte_val[0] == 31 && !err);
+		if (!dup) __CPROVER_assert(!(err && vp_parsed == 4 && !vp_parse_failed), "C14.train_function.every_unused_bit_0_to_31_is_accepted");
+	}
+	/* C20: an accepted function with an initial value - 0 as well as 1 - is registered for start-up exactly once, one without is not */
+	if (!err) __CPROVER_assert(g_init_train == (VP_EV_IS(4, "initial") ? 1u : 0u), "C20.train_function.initial_value_0_or_1_registered_for_startup_exactly_once");
 #elif defined(VP_H_TRAIN)
 	bool err = bidib_config_parse_single_train(&g_parser);
 	VP_COVER(!err); VP_COVER(err && vp_parsed == 1); VP_COVER(err && g_dup && g_add_train == 1);
